@@ -429,7 +429,7 @@ where
             cmp::Ordering::Equal => {}
             other => return other,
         }
-        match self.target.name_cmp(&other.target) {
+        match self.target.composed_cmp(&other.target) {
             cmp::Ordering::Equal => {}
             other => return other,
         }
